@@ -136,7 +136,12 @@ func (b *builder) directTask() TaskSpec {
 		}
 	case "ContainsIP4", "ContainsIP6":
 		t.A = b.ipText()
-		t.N1 = b.r.Intn(3)
+		if b.r.Chance(1, 2) {
+			// a real address somewhere in the text
+			ip := b.r.Pick([]string{"10.0.0.1", "192.168.255.254", "2001:db8::1", "[2001:db8:0:1:2:3:4:5]", "fe80::1:2", "::1", "1:2:3:4:5:6:7:8"})
+			t.A = append(append(b.g.Noise(b.r.Intn(6)), ip...), b.g.Noise(b.r.Intn(6))...)
+		}
+		t.N1 = b.r.Intn(200)
 	case "GetCallIDSig":
 		t.A = b.ipText()
 		if b.r.Chance(1, 2) {
